@@ -1042,9 +1042,22 @@ func (g *egen) mutateE2E(p *gProgram) string {
 // ---------------------------------------------------------------- inspection scripts
 
 type walker struct {
-	np, op *gProgram
+	np, op *gProgram // the version being inspected, the version before it
+	orig   *gProgram // version 1 (under which the values were written)
 	lines  []string
 	exp    []string // expected leaf value ("" = take from the run before the update)
+}
+
+// oldDecl: the declaration the value had before this update (or, when the previous version does
+// not declare the name, under version 1)
+func (w *walker) oldDecl(name string) *gDecl {
+	if d := w.op.find(name); d != nil {
+		return d
+	}
+	if w.orig != nil {
+		return w.orig.find(name)
+	}
+	return nil
 }
 
 func (w *walker) leaf(expr, expected string) {
@@ -1115,8 +1128,9 @@ func (w *walker) walk(expr string, v *Val, dt *gTy, viaRef bool) {
 		}
 	case "enum":
 		w.leaf(expr+".rawValue.toString()", fmt.Sprint(v.I))
-		od := w.op.find(v.Name)
-		w.leaf(fmt.Sprintf("(C.%s(rawValue: %s.rawValue)! == C.%s.%s ? \"same\" : \"diff\")", v.Name, expr, v.Name, od.Cases[v.I]), "same")
+		if od := w.oldDecl(v.Name); od != nil && int(v.I) < len(od.Cases) {
+			w.leaf(fmt.Sprintf("(C.%s(rawValue: %s.rawValue)! == C.%s.%s ? \"same\" : \"diff\")", v.Name, expr, v.Name, od.Cases[v.I]), "same")
+		}
 	case "cap":
 		w.leaf(expr+".getType().identifier", "")
 		// a dynamic cast makes the runtime load the capability's own borrow type
@@ -1138,8 +1152,8 @@ func (w *walker) walk(expr string, v *Val, dt *gTy, viaRef bool) {
 		}
 	case "comp":
 		nd := w.np.find(v.Name)
-		od := w.op.find(v.Name)
-		if nd == nil {
+		od := w.oldDecl(v.Name)
+		if nd == nil || od == nil {
 			// the type no longer exists: any use of the value goes through its type
 			w.leaf(expr+".getType().identifier", "")
 			return
@@ -1267,34 +1281,70 @@ type root struct {
 	ViaRef  bool
 }
 
+// one update of a history: the version submitted, how it was derived, and the inspection of the
+// stored values generated for it (from its declarations and the values written under version 1)
+type step struct {
+	Label    []string
+	NewSrc   string
+	NewG     *gProgram
+	Scripts  []string
+	Expected [][]string
+	Removed  []string // names removed so far (pragma or entitlement), cumulative
+	PragmaRm []string // names removed so far with #removedType, cumulative
+	KnownKey string   // hand-written scenarios
+	ByDesign bool     // hand-written scenarios
+}
+
 type scenario struct {
-	Label     []string
+	// single-step form used by hand.go (converted to Steps)
+	Label    []string
+	NewSrc   string
+	Scripts  []string
+	Expected [][]string
+	KnownKey string
+	ByDesign bool
+
 	OldSrc    string
-	NewSrc    string
+	Steps     []*step
 	FooSrc    string
 	Pre       map[string]string // other contracts deployed first: name -> source (address 0x2/0x3)
 	PreAddr   map[string]common.Address
 	Setup     string
 	Roots     []root
-	Scripts   []string
-	Expected  [][]string
 	OldG      *gProgram
-	NewG      *gProgram
-	Removed   string
 	XC        bool // Foo.T conforms to C.I0
-	KnownKey  string
-	ByDesign  bool
 	Hand      bool
 	HandVals  []string // Coq values for hand-written scenarios
 	HandNames []string
 }
 
-type engineResult struct {
+func (s *scenario) normalize() {
+	if len(s.Steps) == 0 {
+		s.Steps = []*step{{Label: s.Label, NewSrc: s.NewSrc, Scripts: s.Scripts, Expected: s.Expected,
+			KnownKey: s.KnownKey, ByDesign: s.ByDesign}}
+	}
+}
+
+func (s *scenario) chain() []string {
+	out := []string{s.OldSrc}
+	for _, st := range s.Steps {
+		out = append(out, st.NewSrc)
+	}
+	return out
+}
+
+type stepResult struct {
 	Verdict int // 0 rejected before validation, 1 validator ran
 	Codes   []code3
 	Other   string // description when neither accepted nor ContractUpdateError
 	OK      []bool
 	Detail  []string
+}
+
+func (r stepResult) accepted() bool { return r.Verdict == 1 && len(r.Codes) == 0 }
+
+func (r stepResult) json() map[string]any {
+	return map[string]any{"verdict": r.Verdict, "errors": codesStrings(r.Codes), "other": r.Other, "usable": r.OK, "detail": r.Detail}
 }
 
 func updateTx(name, code string) string { return string(ru.UpdateTransaction(name, []byte(code))) }
@@ -1334,9 +1384,12 @@ func firstLine(err error) string {
 	return strings.Join(out, " | ")
 }
 
-// run executes a scenario with one engine. setupErr != "" means the scenario itself is broken
-// (old version or setup does not work), which is a harness problem, not a finding.
-func (s *scenario) run(vm bool) (res engineResult, setupErr string) {
+// run executes a scenario with one engine: deploy version 1, store the values, then submit the
+// later versions one after the other (the history stops at the first update that is not accepted);
+// after every accepted update all stored values are inspected.
+// setupErr != "" means the scenario itself is broken (version 1 or the setup does not work),
+// which is a harness problem, not a finding.
+func (s *scenario) run(vm bool) (res []stepResult, setupErr string) {
 	h := lib.NewHost()
 	var names []string
 	for n := range s.Pre {
@@ -1361,68 +1414,72 @@ func (s *scenario) run(vm bool) (res engineResult, setupErr string) {
 			return res, "setup: " + firstLine(o.Err)
 		}
 	}
-	// expected leaves: from the value trees, and from a run before the update where not known
-	pre := make([][]string, len(s.Scripts))
-	for i, sc := range s.Scripts {
-		o := h.RunScript(sc, nil, vm)
-		if o.Err == nil && o.Panic == nil {
-			pre[i] = stringsOf(o.Value)
+	for _, st := range s.Steps {
+		var r stepResult
+		// expected leaves: from the value trees, and from a run before the update where not known
+		pre := make([][]string, len(st.Scripts))
+		for i, sc := range st.Scripts {
+			o := h.RunScript(sc, nil, vm)
+			if o.Err == nil && o.Panic == nil {
+				pre[i] = stringsOf(o.Value)
+			}
 		}
-	}
-	o := h.RunTx(updateTx("C", s.NewSrc), nil, []common.Address{addrC}, vm)
-	h.Iface.Programs = nil
-	switch {
-	case o.Panic != nil:
-		res.Verdict = 0
-		res.Other = fmt.Sprintf("panic: %v", o.Panic)
-		return
-	case o.Err == nil:
-		res.Verdict = 1
-	default:
-		var cue *stdlib.ContractUpdateError
-		if errors.As(o.Err, &cue) {
-			res.Verdict = 1
-			res.Codes = errorCodes(cue.Errors)
+		o := h.RunTx(updateTx("C", st.NewSrc), nil, []common.Address{addrC}, vm)
+		h.Iface.Programs = nil
+		switch {
+		case o.Panic != nil:
+			r.Other = fmt.Sprintf("panic: %v", o.Panic)
+		case o.Err == nil:
+			r.Verdict = 1
+		default:
+			var cue *stdlib.ContractUpdateError
+			if errors.As(o.Err, &cue) {
+				r.Verdict = 1
+				r.Codes = errorCodes(cue.Errors)
+			} else {
+				r.Other = o.Class + ": " + firstLine(o.Err)
+			}
+		}
+		if !r.accepted() {
+			res = append(res, r)
 			return
 		}
-		res.Verdict = 0
-		res.Other = o.Class + ": " + firstLine(o.Err)
-		return
-	}
-	// accepted: inspect
-	for i, sc := range s.Scripts {
-		r := h.RunScript(sc, nil, vm)
-		ok := true
-		detail := ""
-		if r.Err != nil || r.Panic != nil {
-			ok = false
-			detail = r.Class + ": " + firstLine(r.Err)
-			if r.Panic != nil {
-				detail = fmt.Sprintf("panic: %v", r.Panic)
-			}
-		} else {
-			got := stringsOf(r.Value)
-			exp := s.Expected[i]
-			if len(got) != len(exp) {
+		// accepted: inspect
+		for i, sc := range st.Scripts {
+			x := h.RunScript(sc, nil, vm)
+			ok := true
+			detail := ""
+			if x.Err != nil || x.Panic != nil {
 				ok = false
-				detail = fmt.Sprintf("leaf count %d, expected %d", len(got), len(exp))
-			}
-			for k := 0; ok && k < len(exp); k++ {
-				want := exp[k]
-				if want == "" {
-					if pre[i] == nil || k >= len(pre[i]) {
-						continue
-					}
-					want = pre[i][k]
+				detail = x.Class + ": " + firstLine(x.Err)
+				if x.Panic != nil {
+					detail = fmt.Sprintf("panic: %v", x.Panic)
 				}
-				if got[k] != want {
+			} else {
+				got := stringsOf(x.Value)
+				exp := st.Expected[i]
+				if len(got) != len(exp) {
 					ok = false
-					detail = fmt.Sprintf("leaf %d = %q, stored %q", k, got[k], want)
+					detail = fmt.Sprintf("leaf count %d, expected %d", len(got), len(exp))
+				}
+				for k := 0; ok && k < len(exp); k++ {
+					want := exp[k]
+					if want == "" {
+						if pre[i] == nil || k >= len(pre[i]) {
+							continue
+						}
+						want = pre[i][k]
+					}
+					if got[k] != want {
+						ok = false
+						detail = fmt.Sprintf("leaf %d = %q, stored %q", k, got[k], want)
+					}
 				}
 			}
+			r.OK = append(r.OK, ok)
+			r.Detail = append(r.Detail, detail)
 		}
-		res.OK = append(res.OK, ok)
-		res.Detail = append(res.Detail, detail)
+		res = append(res, r)
 	}
 	return
 }
@@ -1431,7 +1488,7 @@ func legE2E(sum *lib.Summary, rng *lib.Rng, distinct map[string]bool) []string {
 	cw := &lib.CaseWriter{
 		Dir: *dir, Prefix: "cases_C27_e2e",
 		Header:   "From CV Require Import C27.Cases.",
-		ElemType: "acct_names * ext_confs * program * program * Z * list code3 * list (value * value * bool)",
+		ElemType: "acct_names * ext_confs * program * program * Z * list code3 * list (option value * value * bool)",
 		CheckFn:  "check_e2e",
 		PerFile:  60,
 	}
@@ -1449,6 +1506,78 @@ func legE2E(sum *lib.Summary, rng *lib.Rng, distinct map[string]bool) []string {
 	}
 	cw.Close()
 	return cw.Files
+}
+
+// retypeField gives a field a different type (for re-introduced declarations)
+func retypeTy(t *gTy) *gTy {
+	if t.K == "nom" {
+		switch t.Nom.String() {
+		case "Int":
+			return nomTy("String")
+		case "String", "Bool", "UInt8":
+			return nomTy("Int")
+		}
+	}
+	if t.K == "opt" {
+		return t.A
+	}
+	return optTy(t)
+}
+
+// reintroduce builds, from version 2 (where `name` was removed with #removedType), a version that
+// declares the name again. orig is the declaration of version 1.
+func (g *egen) reintroduce(p *gProgram, orig *gDecl) string {
+	r := g.r
+	d := orig.clone()
+	label := "same"
+	switch r.Intn(7) {
+	case 0, 1:
+	case 2, 3:
+		label = "different-fields"
+		if len(d.Fields) > 0 {
+			for _, f := range d.Fields {
+				f.Ty = retypeTy(f.Ty)
+			}
+		} else if d.Kind == "enum" {
+			d.Cases = append([]string{"other"}, d.Cases...)
+		} else {
+			d.Fields = []*gField{{Name: "fresh", Ty: nomTy("Int"), Var: true}}
+		}
+	case 4, 5:
+		kinds := map[string][]string{"struct": {"resource", "enum", "struct interface"}, "resource": {"struct", "resource interface"},
+			"enum": {"struct", "resource"}}
+		d.Kind = lib.Pick(r, kinds[orig.Kind])
+		label = "different-kind:" + d.Kind
+		d.Confs = nil
+		switch d.Kind {
+		case "enum":
+			d.Fields = nil
+			d.Confs = []gNom{{[]string{"UInt8"}}}
+			d.Cases = []string{"k0", "k1"}
+		default:
+			d.Cases = nil
+			if len(d.Fields) == 0 {
+				d.Fields = []*gField{{Name: "a", Ty: nomTy("Int"), Var: true}}
+			}
+		}
+	default:
+		label = "not-declared"
+		d = nil
+	}
+	if d != nil {
+		p.Root.Nested = append(p.Root.Nested, d)
+	}
+	if d == nil || r.Chance(1, 3) {
+		var ps []string
+		for _, pr := range p.Root.Pragmas {
+			if pr != "#removedType("+orig.Name+")" {
+				ps = append(ps, pr)
+			}
+		}
+		p.Root.Pragmas = ps
+		label += "+pragma-dropped"
+	}
+	return "reintroduce-removed:" + label
 }
 
 func genScenario(rng *lib.Rng) *scenario {
@@ -1524,58 +1653,137 @@ func genScenario(rng *lib.Rng) *scenario {
 	}
 	s.Setup = "import C from 0x1\nimport Foo from 0x2\nimport Lib from 0x3\ntransaction {\n  prepare(acct: auth(Storage, Capabilities) &Account) {\n    " +
 		strings.Join(setup, "\n    ") + "\n  }\n}\n"
-	// the new version
-	newG := oldG.clone()
-	for k := 0; k <= rng.Intn(2); k++ {
-		l := g.mutateE2E(newG)
-		if l == "none" {
-			continue
+	s.Roots = append(s.Roots, root{Name: "contract", Val: cv})
+	s.Roots = append(s.Roots, roots...)
+
+	// the later versions: a history of 1 to 3 updates
+	var removed, pragmaRm []string
+	prev := oldG
+	addStep := func(newG *gProgram, labels []string) {
+		if g.removed != "" {
+			removed = append(removed, g.removed)
+			for _, l := range labels {
+				if strings.HasPrefix(l, lblPragma) {
+					pragmaRm = append(pragmaRm, g.removed)
+				}
+			}
+			g.removed = ""
 		}
-		s.Label = append(s.Label, l)
-		if l == lblIfaceConf || l == lblEntRemove || strings.HasPrefix(l, lblPragma) {
-			break // defect-class mutations are applied alone (or last)
+		st := &step{Label: labels, NewG: newG, Removed: append([]string{}, removed...), PragmaRm: append([]string{}, pragmaRm...)}
+		st.NewSrc = newG.renderFull(func(f *gField) string { return newG.defaultExpr(f.Ty, 0) })
+		// inspection scripts, generated from this version's declarations and the stored values
+		for _, rt := range s.Roots {
+			w := &walker{np: newG, op: prev, orig: oldG}
+			if rt.Name == "contract" {
+				for i, f := range cv.FNames {
+					var nf *gField
+					for _, x := range newG.Root.Fields {
+						if x.Name == f && x.Access == "" {
+							nf = x
+						}
+					}
+					if nf != nil {
+						w.walk("C."+f, cv.FVals[i], nf.Ty, true)
+					}
+				}
+				if len(w.lines) == 0 {
+					w.leaf("\"none\"", "none")
+				}
+			} else {
+				w.walk(rt.Expr, rt.Val, rt.Ty, rt.ViaRef)
+			}
+			st.Scripts = append(st.Scripts, w.script(rt.Prelude))
+			st.Expected = append(st.Expected, w.exp)
 		}
+		s.Steps = append(s.Steps, st)
+		prev = newG
 	}
-	s.NewG = newG
-	s.Removed = g.removed
-	s.NewSrc = newG.renderFull(func(f *gField) string { return newG.defaultExpr(f.Ty, 0) })
-	// inspection scripts, generated from the new declarations and the stored values
-	w := &walker{np: newG, op: oldG}
-	for i, f := range cv.FNames {
-		var nf *gField
-		for _, x := range newG.Root.Fields {
-			if x.Name == f && x.Access == "" {
-				nf = x
+	randomStep := func() {
+		newG := prev.clone()
+		var labels []string
+		for k := 0; k <= rng.Intn(2); k++ {
+			l := g.mutateE2E(newG)
+			if l == "none" {
+				continue
+			}
+			labels = append(labels, l)
+			if l == lblIfaceConf || l == lblEntRemove || strings.HasPrefix(l, lblPragma) {
+				break // defect-class mutations are applied alone (or last)
 			}
 		}
-		if nf == nil {
-			continue
+		addStep(newG, labels)
+	}
+	switch mode := rng.Intn(20); {
+	case mode < 9: // a single update
+		randomStep()
+	case mode < 13: // a history of random updates
+		for k := 0; k < 2+rng.Intn(2); k++ {
+			randomStep()
 		}
-		fv := cv.FVals[i]
-		w.walk("C."+f, fv, nf.Ty, true)
-	}
-	if len(w.lines) == 0 {
-		w.leaf("\"none\"", "none")
-	}
-	s.Roots = append(s.Roots, root{Name: "contract", Val: cv})
-	s.Scripts = append(s.Scripts, w.script(""))
-	s.Expected = append(s.Expected, w.exp)
-	for _, rt := range roots {
-		w := &walker{np: newG, op: oldG}
-		w.walk(rt.Expr, rt.Val, rt.Ty, rt.ViaRef)
-		s.Roots = append(s.Roots, rt)
-		s.Scripts = append(s.Scripts, w.script(rt.Prelude))
-		s.Expected = append(s.Expected, w.exp)
-	}
-	for _, l := range s.Label {
-		switch {
-		case l == lblIfaceConf:
-			s.KnownKey = "accepted-unusable:" + lblIfaceConf
-		case l == lblEntRemove:
-			s.KnownKey = "accepted-unusable:" + lblEntRemove
-		case strings.HasPrefix(l, lblPragma):
-			s.ByDesign = true
+	case mode < 18: // remove a type with #removedType, later bring the name back
+		var cands []*gDecl
+		for _, d := range oldG.Root.Nested {
+			if d.Kind == "struct" || d.Kind == "enum" || d.Kind == "resource" {
+				cands = append(cands, d)
+			}
 		}
+		orig := lib.Pick(rng, cands)
+		if rng.Chance(1, 4) {
+			randomStep() // something unrelated first
+			if prev.find(orig.Name) == nil {
+				break
+			}
+		}
+		v2 := prev.clone()
+		v2.removeDecl(orig.Name)
+		v2.dropMentions(orig.Name)
+		v2.Root.Pragmas = append(v2.Root.Pragmas, "#removedType("+orig.Name+")")
+		g.removed = orig.Name
+		addStep(v2, []string{lblPragma + ":" + orig.Kind})
+		if rng.Chance(1, 4) {
+			randomStep()
+		}
+		v3 := prev.clone()
+		if v3.find(orig.Name) == nil {
+			l := g.reintroduce(v3, orig)
+			addStep(v3, []string{l})
+		}
+		if rng.Chance(1, 3) {
+			randomStep()
+		}
+	default: // remove a field, later declare it again (same or different type)
+		var cands []*gDecl
+		for _, d := range oldG.Root.Nested {
+			if (d.Kind == "struct" || d.Kind == "resource") && len(d.Fields) > 0 {
+				cands = append(cands, d)
+			}
+		}
+		od := lib.Pick(rng, cands)
+		f := lib.Pick(rng, od.Fields)
+		v2 := prev.clone()
+		d2 := v2.find(od.Name)
+		var fs []*gField
+		for _, x := range d2.Fields {
+			if x.Name != f.Name {
+				fs = append(fs, x)
+			}
+		}
+		d2.Fields = fs
+		addStep(v2, []string{"field-remove"})
+		v3 := prev.clone()
+		nf := *f
+		nf.Ty = f.Ty.clone()
+		l := "field-readd:same-type"
+		if rng.Bool() {
+			nf.Ty = retypeTy(nf.Ty)
+			l = "field-readd:different-type"
+		}
+		d3 := v3.find(od.Name)
+		d3.Fields = append(d3.Fields, &nf)
+		addStep(v3, []string{l})
+	}
+	if len(s.Steps) == 0 {
+		return nil
 	}
 	return s
 }
@@ -1588,11 +1796,28 @@ func (g *egen) resArgs(name string) string {
 	return e[i+1 : len(e)-1]
 }
 
+func sameResults(a, b []stepResult) bool {
+	if len(a) != len(b) {
+		return false
+	}
+	for i := range a {
+		if a[i].Verdict != b[i].Verdict || fmt.Sprint(codesStrings(a[i].Codes)) != fmt.Sprint(codesStrings(b[i].Codes)) ||
+			fmt.Sprint(a[i].OK) != fmt.Sprint(b[i].OK) {
+			return false
+		}
+	}
+	return true
+}
+
 func runScenario(sum *lib.Summary, cw *lib.CaseWriter, distinct map[string]bool, s *scenario) {
+	s.normalize()
 	r0, e0 := s.run(false)
 	r1, e1 := s.run(true)
-	desc := map[string]any{"leg": "e2e", "mutations": s.Label, "old": s.OldSrc, "new": s.NewSrc, "setup": s.Setup,
-		"scripts": s.Scripts}
+	chain := s.chain()
+	var history [][]string
+	for _, st := range s.Steps {
+		history = append(history, st.Label)
+	}
 	if e0 != "" || e1 != "" {
 		sum.Count("e2e: scenario not runnable (generator)")
 		if sum.Distribution["e2e: scenario not runnable (generator)"] <= 3 {
@@ -1600,109 +1825,163 @@ func runScenario(sum *lib.Summary, cw *lib.CaseWriter, distinct map[string]bool,
 		}
 		return
 	}
-	sum.Evaluations += 2
-	distinct[s.OldSrc+"\x00"+s.NewSrc+"\x00"+s.Setup] = true
-	desc["interpreter"] = map[string]any{"verdict": r0.Verdict, "errors": codesStrings(r0.Codes), "other": r0.Other, "usable": r0.OK, "detail": r0.Detail}
-	desc["vm"] = map[string]any{"verdict": r1.Verdict, "errors": codesStrings(r1.Codes), "other": r1.Other, "usable": r1.OK, "detail": r1.Detail}
-	same := r0.Verdict == r1.Verdict && fmt.Sprint(codesStrings(r0.Codes)) == fmt.Sprint(codesStrings(r1.Codes)) && fmt.Sprint(r0.OK) == fmt.Sprint(r1.OK)
-	if !same {
-		sum.Fail("engines-disagree", "interpreter and VM disagree on the update verdict or on the usability of stored values", desc)
+	base := func() map[string]any {
+		d := map[string]any{"leg": "e2e", "history": history, "versions": chain, "setup": s.Setup}
+		var i0, i1 []any
+		for _, r := range r0 {
+			i0 = append(i0, r.json())
+		}
+		for _, r := range r1 {
+			i1 = append(i1, r.json())
+		}
+		d["interpreter_steps"], d["vm_steps"] = i0, i1
+		return d
+	}
+	distinct[strings.Join(chain, "\x00")+"\x00"+s.Setup] = true
+	sum.Count(fmt.Sprintf("e2e: history of %d update(s)", len(s.Steps)))
+	if !sameResults(r0, r1) {
+		sum.Fail("engines-disagree", "interpreter and VM disagree on an update verdict or on the usability of stored values", base())
 		return
 	}
-	for _, l := range s.Label {
-		sum.Count("e2e mutation " + strings.SplitN(l, ":", 2)[0])
-	}
-	switch {
-	case r0.Verdict == 0:
-		sum.Count("e2e: new version rejected before validation")
-		if strings.HasPrefix(r0.Other, "Internal") || strings.HasPrefix(r0.Other, "Crash") || strings.HasPrefix(r0.Other, "panic") {
-			sum.Fail("update-internal-error", "contract update failed with an internal error: "+r0.Other, desc)
+	var labelsSoFar []string
+	prevSrc := s.OldSrc
+	for k, r := range r0 {
+		st := s.Steps[k]
+		sum.Evaluations += 2
+		labelsSoFar = append(labelsSoFar, st.Label...)
+		desc := base()
+		desc["step"] = k + 1
+		desc["mutations"] = st.Label
+		desc["old"], desc["new"] = prevSrc, st.NewSrc
+		desc["scripts"] = st.Scripts
+		desc["interpreter"] = r.json()
+		for _, l := range st.Label {
+			sum.Count("e2e mutation " + strings.SplitN(l, ":", 2)[0])
 		}
-	case len(r0.Codes) > 0:
-		sum.Count("e2e: rejected by validator")
-	default:
-		sum.Count("e2e: accepted")
-		bad := false
-		for i, ok := range r0.OK {
-			if !ok {
-				bad = true
-				desc["failing_root"] = s.Roots[i].Name
-				desc["failing_detail"] = r0.Detail[i]
+		switch {
+		case r.Verdict == 0:
+			sum.Count("e2e: new version rejected before validation")
+			if strings.HasPrefix(r.Other, "Internal") || strings.HasPrefix(r.Other, "Crash") || strings.HasPrefix(r.Other, "panic") {
+				sum.Fail("update-internal-error", "contract update failed with an internal error: "+r.Other, desc)
+			}
+		case len(r.Codes) > 0:
+			sum.Count("e2e: rejected by validator")
+		default:
+			sum.Count("e2e: accepted")
+			bad := false
+			for i, ok := range r.OK {
+				if !ok {
+					bad = true
+					desc["failing_root"] = s.Roots[i].Name
+					desc["failing_detail"] = r.Detail[i]
+				}
+			}
+			if bad {
+				// by design: a type removed with #removedType (and not declared again) is given up
+				byDesign, known := st.ByDesign, st.KnownKey
+				if !s.Hand {
+					gone, back := false, false
+					for _, n := range st.PragmaRm {
+						if st.NewG.find(n) == nil {
+							gone = true
+						} else {
+							back = true
+						}
+					}
+					byDesign = gone && !back
+					for _, l := range labelsSoFar {
+						if known == "" && (l == lblIfaceConf || l == lblEntRemove) {
+							known = "accepted-unusable:" + l
+						}
+					}
+				}
+				what := fmt.Sprintf("update %d of the history accepted, but a value stored under version 1 cannot be used: %v", k+1, desc["failing_detail"])
+				switch {
+				case byDesign:
+					sum.Count("e2e: accepted, value of a #removedType type unusable (by design)")
+				case known != "":
+					sum.Fail(known, what, desc)
+				default:
+					sum.Fail("accepted-unusable:"+strings.Join(labelsSoFar, "+"), what, desc)
+				}
+			} else {
+				sum.Count("e2e: accepted and every stored value usable")
 			}
 		}
-		if bad {
-			switch {
-			case s.ByDesign:
-				sum.Count("e2e: accepted, value of a #removedType type unusable (by design)")
-			case s.KnownKey != "":
-				sum.Fail(s.KnownKey, "update accepted, but a value stored under the old version cannot be used: "+fmt.Sprint(desc["failing_detail"]), desc)
-			default:
-				sum.Fail("accepted-unusable:"+strings.Join(s.Label, "+"), "update accepted, but a value stored under the old version cannot be used: "+fmt.Sprint(desc["failing_detail"]), desc)
-			}
-		} else {
-			sum.Count("e2e: accepted and every stored value usable")
+		s.coqCase(cw, k, prevSrc, st, r, desc)
+		if len(st.Label) > 0 {
+			sum.Sample(map[string]any{"leg": "e2e", "history": history, "step": k + 1, "verdict": r.Verdict, "errors": codesStrings(r.Codes), "usable": r.OK})
 		}
+		prevSrc = st.NewSrc
 	}
-	// the Coq case
-	oldP, err1 := parse(s.OldSrc)
-	newP, err2 := parse(s.NewSrc)
-	if err1 != nil {
+}
+
+// coqCase writes the case of one update (old = the previously accepted version)
+func (s *scenario) coqCase(cw *lib.CaseWriter, k int, oldSrc string, st *step, r stepResult, desc map[string]any) {
+	oldP, err1 := parse(oldSrc)
+	newP, err2 := parse(st.NewSrc)
+	if err1 != nil || err2 != nil {
 		return
 	}
-	oldM, _ := programOf(oldP)
-	var newM *mProgram
-	if err2 == nil {
-		newM, _ = programOf(newP)
-	}
-	if newM == nil {
+	oldM, ok1 := programOf(oldP)
+	newM, ok2 := programOf(newP)
+	if !ok1 || !ok2 {
 		return
 	}
-	extra := append([]string{"Foo", "T", "Lib", "C", "I0", "X", "R0"}, codeNames(r0.Codes)...)
+	// the values were written under version 1: its names must be interned as well
+	v1P, _ := parse(s.OldSrc)
+	v1M, _ := programOf(v1P)
+	extra := append([]string{"Foo", "T", "Lib", "C", "I0", "X", "R0"}, codeNames(r.Codes)...)
 	extra = append(extra, s.HandNames...)
-	in := newInterner([]*mProgram{oldM, newM}, extra)
+	in := newInterner([]*mProgram{oldM, newM, v1M}, extra)
 	xc := "[]"
 	if s.XC {
 		xc = fmt.Sprintf("[(((2,%s),[%s]),[TLocal [%s;%s]])]", in.id("Foo"), in.id("T"), in.id("C"), in.id("I0"))
+	}
+	full := func(t string) string {
+		if k == 0 {
+			return "(Some " + t + ")"
+		}
+		return "None"
 	}
 	var vals []string
 	if s.Hand {
 		for i, hv := range s.HandVals {
 			ok := "true"
-			if r0.Verdict == 1 && len(r0.Codes) == 0 && i < len(r0.OK) && !r0.OK[i] {
+			if r.accepted() && i < len(r.OK) && !r.OK[i] {
 				ok = "false"
 			}
-			vals = append(vals, "("+in.subst(hv)+","+in.subst(hv)+","+ok+")")
+			vals = append(vals, "("+full(in.subst(hv))+","+in.subst(hv)+","+ok+")")
 		}
 	} else {
 		for i, rt := range s.Roots {
 			ok := "true"
-			if r0.Verdict == 1 && len(r0.Codes) == 0 && !r0.OK[i] {
+			if r.accepted() && !r.OK[i] {
 				ok = "false"
 			}
-			render := func(v *Val) string { return renderAny(in, s.OldG, v, rt.Name == "contract") }
 			// roots read through references (contract fields, borrowed resources) only load what is
 			// accessed; roots read with storage.copy load every stored field
 			reach := rt.Val
 			if rt.Name == "contract" || rt.ViaRef {
-				reach = prune(rt.Val, s.NewG, rt.Name == "contract")
+				reach = prune(rt.Val, st.NewG, rt.Name == "contract")
 			}
 			// values of a type removed with #removedType are given up by design, and whether a value
-			// CONTAINING one (or a capability mentioning a removed entitlement, in a field the new
+			// CONTAINING one (or a capability mentioning a removed entitlement, in a field a later
 			// version dropped) still loads depends on container static types, which the model does
-			// not have: such roots are checked for well-formedness only (the direct check above
-			// still reports every failed inspection)
-			if s.Removed != "" && valMentions(rt.Val, s.Removed) {
-				reach, ok = &Val{K: "int"}, "true"
+			// not have: such roots are checked for well-formedness only (the direct check in
+			// runScenario still reports every failed inspection)
+			for _, n := range st.Removed {
+				if valMentions(rt.Val, n) {
+					reach, ok = &Val{K: "int"}, "true"
+				}
 			}
-			cv := render(rt.Val) + "," + renderAny(in, s.OldG, reach, rt.Name == "contract" && reach.K == "comp")
+			cv := full(renderAny(in, s.OldG, rt.Val, rt.Name == "contract")) + "," +
+				renderAny(in, s.OldG, reach, rt.Name == "contract" && reach.K == "comp")
 			vals = append(vals, "("+cv+","+ok+")")
 		}
 	}
-	cw.Add(fmt.Sprintf("([], %s, %s, %s, %d, %s, [%s])", xc, in.program(oldM), in.program(newM), r0.Verdict,
-		in.codes(r0.Codes), strings.Join(vals, ";")), desc)
-	if len(s.Label) > 0 {
-		sum.Sample(map[string]any{"leg": "e2e", "mutations": s.Label, "verdict": r0.Verdict, "errors": codesStrings(r0.Codes), "usable": r0.OK})
-	}
+	cw.Add(fmt.Sprintf("([], %s, %s, %s, %d, %s, [%s])", xc, in.program(oldM), in.program(newM), r.Verdict,
+		in.codes(r.Codes), strings.Join(vals, ";")), desc)
 }
 
 // prune keeps of a stored value what the inspection under the new program reads: for composites
